@@ -171,7 +171,15 @@ impl<T: Qcow2IoOps> Qcow2Dev<T> {
         buf: &mut [u8],
     ) -> Qcow2Result<usize> {
         match mapping.cluster_offset {
-            Some(off) => self.call_read(off + off_in_cls as u64, buf).await,
+            Some(off) => {
+                let done = self.call_read(off + off_in_cls as u64, buf).await?;
+
+                // An allocated cluster is zeroed by punching a hole, which
+                // keeps the file size, so the host file may end inside (or
+                // before) a partially written cluster; that part reads as zero.
+                buf[done..].fill(0);
+                Ok(buf.len())
+            }
             None => Err("DataFile mapping: None offset None".into()),
         }
     }
